@@ -52,6 +52,7 @@ Definition clause_code (c : clause) : N * N * N :=
   | ClWindow f => (28, f, 0)
   | ClLutTable c => (29, c, 0)
   | ClNoLut => (30, 0, 0)
+  | ClNoResetPulse => (31, 0, 0)
   end.
 
 (** numeric code of the API method (its arguments dropped) — names in tools/codes.py *)
@@ -99,7 +100,7 @@ Definition vkey (s : vstate) : N :=
     evaluated before the call): the driver model, the specification with the tracked-command list
     filled in, the init signature, the reference waveform tables of both modes and the alphabet. *)
 Section Panel.
-Variables (D : driver) (PP : pspec) (isig : list N) (lr0 lr1 : list (N * list N)) (alpha : list (list op)).
+Variables (D : driver) (PP : pspec) (isig : list N) (lr0 lr1 : list (N * list N)) (cref : list N) (alpha : list (list op)).
 
 Definition lref (r : N) : list (N * list N) := if r =? 0 then lr0 else if r =? 1 then lr1 else [].
 
@@ -120,7 +121,7 @@ Definition vop (k : N) (s : vstate) (o : op) : option vstate * list fail :=
   | Some m =>
       match m (v_d s) with
       | (Some _, d1, t) =>
-          let '(o1, fs) := observe PP sym lref isig k (v_o s) o (calls t) in
+          let '(o1, fs) := observe PP sym lref isig cref k (v_o s) o (calls t) in
           (Some (mkV d1 o1), map (fun '(p, c) => mkfail p (op_code o) c) fs)
       | (None, _, [IPanic]) =>
           (* the call is REFUSED: it panics before touching the bus or the driver's fields
@@ -227,12 +228,13 @@ Definition iPP : pspec := Hist.P ft P0.
 Definition iisig : list N := init_sig ft P0.
 Definition ilr (r : N) := lut_ref ft iPP r.
 Definition ialpha : list (list op) := ps_alpha P0.
+Definition icref : list N := clear_ref ft iPP.
 Definition p_new := v_new iD iPP iisig.
-Definition p_reach (fuel : nat) := vreach iD iPP iisig (ilr 0) (ilr 1) ialpha fuel.
-Definition p_closed (R : list vstate) := vclosed iD iPP iisig (ilr 0) (ilr 1) ialpha R.
-Definition p_fails (R : list vstate) := all_fails iD iPP iisig (ilr 0) (ilr 1) ialpha R.
-Definition p_distinct (R : list vstate) := dedup (all_fails iD iPP iisig (ilr 0) (ilr 1) ialpha R).
-Definition p_ok (R : list vstate) (known : list fail) := panel_ok iD iPP iisig (ilr 0) (ilr 1) ialpha R known.
-Definition p_macro (k : N) (s : vstate) (m : list op) := vmacro iD iPP iisig (ilr 0) (ilr 1) k s m.
-Definition p_run (s : vstate) (h : list (list op)) := vrun iD iPP iisig (ilr 0) (ilr 1) s h.
+Definition p_reach (fuel : nat) := vreach iD iPP iisig (ilr 0) (ilr 1) icref ialpha fuel.
+Definition p_closed (R : list vstate) := vclosed iD iPP iisig (ilr 0) (ilr 1) icref ialpha R.
+Definition p_fails (R : list vstate) := all_fails iD iPP iisig (ilr 0) (ilr 1) icref ialpha R.
+Definition p_distinct (R : list vstate) := dedup (all_fails iD iPP iisig (ilr 0) (ilr 1) icref ialpha R).
+Definition p_ok (R : list vstate) (known : list fail) := panel_ok iD iPP iisig (ilr 0) (ilr 1) icref ialpha R known.
+Definition p_macro (k : N) (s : vstate) (m : list op) := vmacro iD iPP iisig (ilr 0) (ilr 1) icref k s m.
+Definition p_run (s : vstate) (h : list (list op)) := vrun iD iPP iisig (ilr 0) (ilr 1) icref s h.
 End Inst.
